@@ -60,6 +60,27 @@ pub fn start_or_vacuous<'a, S: Scheme>(scn: &'a Scenario, log: &EventLog, res: &
 
 /// Honest prove + channel + scratch verification. None (and a probe) when the honest transcript is
 /// not accepted: the run is then vacuous for a negative property.
+/// the honest prover's claim after the channel, without asking the verifier first (C05 compares
+/// the two verifier replicas on it; whether an honest claim is accepted at all is C01's question)
+pub fn honest_claim_unverified<S: Scheme>(sess: &mut Sess<S>, op: &Op, i: usize, res: &mut RunResult) -> Option<Claim<S>> {
+    let claim = match sess.prove(op, i as u64) {
+        Outcome::Ok(c) => c,
+        o => {
+            res.stats.probe("vacuous:honest-prover-failed");
+            sess.log.ev(&format!("vacuous: prover {}", o.describe()));
+            return None;
+        }
+    };
+    match claim.through_channel(&sess.scn.env, 500 + i as u64) {
+        Ok(c) => Some(c),
+        Err(e) => {
+            res.stats.probe("vacuous:channel");
+            sess.log.ev(&format!("vacuous: channel {e}"));
+            None
+        }
+    }
+}
+
 pub fn honest_claim<S: Scheme>(sess: &mut Sess<S>, op: &Op, i: usize, res: &mut RunResult) -> Option<Claim<S>> {
     let claim = match sess.prove(op, i as u64) {
         Outcome::Ok(c) => c,
